@@ -1,6 +1,24 @@
-"""C20 — validation decides the code conditions exactly (qecsim.model.StabilizerCode.validate, logicals, DecodeResult)"""
+"""C20 — validation decides the code conditions exactly (qecsim.model.StabilizerCode.validate, logicals, DecodeResult)
+
+Input classes (beyond random small codes and their single-operator corruptions):
+  SIZE    the number of ROWS is an input: codes with more than 64 / 128 stabilizers (independent generators on n up to
+          ~140 qubits built by sparse random Clifford circuits with tracked destabilizers, and over-complete stabilizer
+          lists on ~10 qubits) and with more than 128 logical operators (k = 66), each with ONE corruption placed at every
+          pair of row-index classes (first / last row, around every multiple of 8, 16, 32, 64, 128: same block, adjacent
+          blocks, far apart) so that exactly one pair of rows violates exactly one condition.
+  SHAPES  the PRESENTATION of the three matrices is an input: a user-defined subclass (`UserCode`: the five abstract
+          properties and nothing else — `logicals` and `validate` are the base class's) returns stabilizers / logical_xs /
+          logical_zs as 2-d matrices, 1 x 2n matrices, 1-d vectors (one stabilizer, k = 1: "numpy.array (1d or 2d)" in the
+          interface documentation), in every integer dtype, Fortran-ordered, strided views, read-only.  Whatever the
+          presentation, validate must give the verdict of the canonical 2-d int matrices, `logicals` must be the 2k x 2n
+          stack, and the user's arrays must not be modified.  Lists / tuples are not numpy arrays (outside the documented
+          return type) and are not used.
+          bool arrays: "binary symplectic vector or matrix / numpy.array" does not exclude them; a mismatch there is
+          reported under the stable key 'validate:bool-dtype' (BOOL_FORMS; QV_C20_BOOL=0 leaves the class out).
+"""
 import itertools
 import json
+import os
 
 import numpy as np
 
@@ -9,13 +27,90 @@ from qv.core import bits, mat
 
 RULE = ('valid codes = random Clifford images of trivial [[n,k]] codes (k=1..3, n<=8) with generator mixing; each is '
         'also corrupted by every single-operator replacement class (random Pauli for a stabilizer / logical, swapped '
-        'logical pair, swapped X/Z of one logical qubit, reversed order) plus arbitrary random matrices; BasicCode '
+        'logical pair, swapped X/Z of one logical qubit, reversed order) plus arbitrary random matrices; SIZE: codes '
+        'with > 64 / > 128 stabilizer rows (independent on n <= ~140 qubits, over-complete on ~10 qubits) and > 128 '
+        'logical rows with exactly one violating pair of rows at every pair of row-index classes (first, last, around '
+        'multiples of 8..128); SHAPES: user-defined subclass returning 1-d / 1x2n / 2-d arrays of every integer dtype, '
+        'Fortran / strided / read-only, verdict and `logicals` equal those of the canonical matrices; BasicCode '
         'built from strings; DecodeResult over all 16 argument subsets; non-trivial = not the unmodified valid code')
 
 
-def impl_validate(S, Lx, Lz):
+_USER = []
+
+
+def user_code_class():
+    if not _USER:
+        _USER.append(_make_user_code_class())
+    return _USER[0]
+
+
+def _make_user_code_class():
+    from qecsim.model import StabilizerCode
+
+    class UserCode(StabilizerCode):
+        """what an extension author writes: the five abstract properties and nothing else; the matrix properties return
+        the objects they were given, in whatever presentation"""
+
+        def __init__(self, S, Lx, Lz, nkd, label='user'):
+            self._S, self._Lx, self._Lz, self._nkd, self._label = S, Lx, Lz, nkd, label
+
+        stabilizers = property(lambda self: self._S)
+        logical_xs = property(lambda self: self._Lx)
+        logical_zs = property(lambda self: self._Lz)
+        n_k_d = property(lambda self: self._nkd)
+        label = property(lambda self: self._label)
+    return UserCode
+
+
+# ------------------------------------------------------------------------------------------ presentations
+
+INT_DTYPES = ('int64', 'int8', 'uint8', 'int16', 'uint16', 'int32', 'uint32', 'uint64')
+LAYOUTS_2D = ('2d', 'fortran', 'strided', 'rowstrided', 'readonly')
+LAYOUTS_1D = ('1d', '1d-strided', '1d-row', '1d-readonly')
+BOOL_FORMS = os.environ.get('QV_C20_BOOL', '1') != '0'
+
+
+def present(M, form):
+    """the matrix M (list of 0/1 rows) as the numpy array a user's property might return; form = layout[:dtype]"""
+    layout, _, dt = form.partition(':')
+    dtype = np.dtype(dt or 'int64')
+    A = np.array(M, dtype=int).astype(dtype)
+    fill = True if dtype == np.dtype(bool) else 1
+    if layout == '2d':
+        return A
+    if layout == 'fortran':
+        return np.asfortranarray(A)
+    if layout == 'strided':
+        big = np.full((A.shape[0], 2 * A.shape[1]), fill, dtype=dtype); big[:, ::2] = A
+        return big[:, ::2]
+    if layout == 'rowstrided':
+        big = np.full((2 * A.shape[0], A.shape[1]), fill, dtype=dtype); big[::2] = A
+        return big[::2]
+    if layout == 'readonly':
+        A.setflags(write=False)
+        return A
+    assert len(M) == 1, 'a 1-d presentation needs a single operator'
+    if layout == '1d':
+        return A[0].copy()
+    if layout == '1d-strided':
+        big = np.full(2 * A.shape[1], fill, dtype=dtype); big[::2] = A[0]
+        return big[::2]
+    if layout == '1d-row':     # a row of a larger matrix (view)
+        big = np.full((3, A.shape[1]), fill, dtype=dtype); big[1] = A[0]
+        return big[1]
+    if layout == '1d-readonly':
+        v = A[0].copy(); v.setflags(write=False)
+        return v
+    raise ValueError(form)
+
+
+def forms_for(M, dtypes):
+    lay = LAYOUTS_2D + (LAYOUTS_1D if len(M) == 1 else ())
+    return ['{}:{}'.format(l, d) for l in lay for d in dtypes]
+
+
+def verdict_of(code):
     from qecsim.error import QecsimError
-    code = gens.MatCode(S, Lx, Lz)
     try:
         code.validate()
         return 'ok'
@@ -28,22 +123,61 @@ def impl_validate(S, Lx, Lz):
         if 'as expected' in msg:
             return 'QecsimError:logicals'
         return 'QecsimError:?' + msg
-    except ValueError:
-        return 'ValueError:hsplit'
+    except ValueError as ex:
+        if 'array split does not result in an equal division' in str(ex):
+            return 'ValueError:hsplit'
+        return 'ValueError:' + str(ex)[:80]
     except Exception as ex:
-        return type(ex).__name__
+        return type(ex).__name__ + ':' + str(ex)[:80]
+
+
+def build(S, Lx, Lz, forms=None):
+    """a user-defined code object over the given operators; forms = (form of S, of Lx, of Lz) or None (2-d int)"""
+    fs = forms or ('2d', '2d', '2d')
+    n = len((list(S) + list(Lx) + list(Lz))[0]) // 2
+    return user_code_class()(present(S, fs[0]), present(Lx, fs[1]), present(Lz, fs[2]), (n, len(Lx), None))
+
+
+def impl_validate(S, Lx, Lz, forms=None):
+    return verdict_of(build(S, Lx, Lz, forms))
+
+
+def logicals_of(code, rows, n):
+    """wire value of code.logicals: the matrix when it is a (number of logical operators) x 2n array of 0/1, else a
+    description"""
+    try:
+        L = code.logicals
+    except Exception as ex:
+        return type(ex).__name__ + ':' + str(ex)[:80]
+    if not isinstance(L, np.ndarray) or L.ndim != 2 or L.shape != (rows, 2 * n):
+        return 'not-2k-x-2n:{}:shape={}'.format(type(L).__name__, getattr(L, 'shape', None))
+    if not np.isin(L, (0, 1)).all():
+        return 'not-binary'
+    return mat(L.astype(int))
+
+
+def to_int(r):
+    v = 0
+    for x in r:
+        v = (v << 1) | (1 if x else 0)
+    return v
 
 
 def spec_validate(S, Lx, Lz):
-    """the property, evaluated directly (independent of model and code): commutation via the Pauli table"""
+    """the property, evaluated directly (independent of model and code): commutation via the Pauli table
+    (per qubit x_a z_b + z_a x_b, summed mod 2; rows packed into integers)"""
+    rows = list(S) + list(Lx) + list(Lz)
+    n = len(rows[0]) // 2
+    mask = (1 << n) - 1
+
     def anti(a, b):
-        n = len(a) // 2
-        return sum((a[i] & b[n + i]) ^ (a[n + i] & b[i]) for i in range(n)) % 2
-    L = list(Lx) + list(Lz)
+        return (((a >> n) & (b & mask)) ^ ((a & mask) & (b >> n))).bit_count() & 1
+    Si = [to_int(r) for r in S]
+    L = [to_int(r) for r in list(Lx) + list(Lz)]
     k = len(Lx)
-    if any(anti(a, b) for a in S for b in S):
+    if any(anti(a, b) for a in Si for b in Si):
         return 'QecsimError:stabilizers'
-    if any(anti(a, b) for a in S for b in L):
+    if any(anti(a, b) for a in Si for b in L):
         return 'QecsimError:stablogicals'
     if len(Lx) != len(Lz):
         return None  # outside the property's domain (unequal numbers of logical X and Z)
@@ -55,6 +189,236 @@ def spec_validate(S, Lx, Lz):
     return 'ok'
 
 
+def violating_pairs(S, Lx, Lz):
+    """for failing-input reports on large codes: which pairs of rows violate which condition"""
+    rows = list(S) + list(Lx) + list(Lz)
+    n = len(rows[0]) // 2
+    mask = (1 << n) - 1
+    anti = lambda a, b: (((a >> n) & (b & mask)) ^ ((a & mask) & (b >> n))).bit_count() & 1  # noqa: E731
+    Si, L = [to_int(r) for r in S], [to_int(r) for r in list(Lx) + list(Lz)]
+    k = len(Lx)
+    out = {'stabilizer_rows_anticommuting': [[i, j] for i in range(len(Si)) for j in range(i + 1, len(Si))
+                                             if anti(Si[i], Si[j])][:6],
+           'stabilizer_row_vs_logical_row_anticommuting': [[i, j] for i in range(len(Si)) for j in range(len(L))
+                                                           if anti(Si[i], L[j])][:6]}
+    if len(Lx) == len(Lz):
+        out['logical_rows_not_canonical'] = [[i, j] for i in range(len(L)) for j in range(i + 1, len(L))
+                                             if anti(L[i], L[j]) != (1 if j - i == k else 0)][:6]
+    return {k_: v for k_, v in out.items() if v}
+
+
+# ------------------------------------------------------------------------------------------ SIZE: generators
+
+def index_classes(m):
+    """row indices that matter for anything processed in chunks / words: ends and both sides of multiples of 8..128"""
+    c = {0, 1, m - 2, m - 1}
+    for b in (8, 16, 32, 64, 128):
+        for mult in range(b, m + 1, b):
+            if mult == b or b >= 64:
+                c |= {mult - 1, mult, mult + 1}
+    return sorted(i for i in c if 0 <= i < m)
+
+
+def pair_classes(rng, m, budget=None):
+    """unordered pairs of index classes; with a budget: all pairs across the 64 / 128 block borders and the ends, the rest
+    sampled"""
+    I = index_classes(m)
+    allp = [(i, j) for i in I for j in I if i < j]
+    if budget is None or len(allp) <= budget:
+        return allp
+    core_i = [i for i in (0, 1, 63, 64, 65, 127, 128, 129, m - 1) if 0 <= i < m]
+    must = sorted({(i, j) for i in core_i for j in core_i if i < j} |
+                  {(b - 1, b) for b in (8, 16, 32, 64, 128) if b < m} | {(0, b) for b in (8, 16, 32, 64, 128) if b < m})
+    rest = [p for p in allp if p not in set(must)]
+    return must + rng.sample(rest, max(0, min(len(rest), budget - len(must))))
+
+
+def xor(a, b):
+    return [x ^ y for x, y in zip(a, b)]
+
+
+def code_with_destabilizers(rng, n, k, gates_per_qubit=6, mixing=2):
+    """a valid [[n,k]] code with independent generators S (sparse random Clifford circuit: O(n) per gate and row, then
+    sparse generator mixing and logicals multiplied by stabilizers) together with destabilizers D: D[j] anticommutes with
+    S[j] and with nothing else among S, Lx, Lz"""
+    S, Lx, Lz = gens.trivial_code(n, k)
+    D = []
+    for i in range(k, n):
+        v = [0] * (2 * n); v[i] = 1; D.append(v)
+    f = gens.random_clifford_cols(rng, n, gates_per_qubit * n)
+    S, D, Lx, Lz = ([f(v) for v in M] for M in (S, D, Lx, Lz))
+    m = len(S)
+    if m > 1:
+        for _ in range(mixing * m):
+            i, j = rng.sample(range(m), 2)
+            S[i] = xor(S[i], S[j]); D[j] = xor(D[j], D[i])
+    for a in range(k):
+        for L, P in ((Lx, Lz), (Lz, Lx)):
+            if m and rng.random() < 0.5:
+                j = rng.randrange(m)
+                L[a] = xor(L[a], S[j]); D[j] = xor(D[j], P[a])
+    return S, D, Lx, Lz
+
+
+def overcomplete(rng, G, m, special, at):
+    """m stabilizer rows over the generators G: row `at` is G[special], every other row is a random non-trivial product
+    of the OTHER generators (so the destabilizer of G[special] anticommutes with row `at` only)"""
+    others = [g for i, g in enumerate(G) if i != special]
+    rows = []
+    while len(rows) < m - 1:
+        pick = [g for g in others if rng.random() < 0.5]
+        if not pick:
+            continue
+        v = pick[0]
+        for g in pick[1:]:
+            v = xor(v, g)
+        rows.append(v)
+    rows.insert(at, G[special])
+    return rows
+
+
+def part_size(ctx, one):
+    """SIZE: many rows.  Every case is a code in which exactly one pair of rows violates exactly one condition, the pair
+    placed at a pair of row-index classes; the unmodified code is a case too."""
+    rng = ctx.rng
+    q = ctx.quick()
+    # (a) independent generators on many qubits: stabilizer i times the destabilizer of stabilizer j
+    configs = [(70, 2, None), (134, 3, 48)] if q else \
+        [(66, 1, None), (70, 2, None), (97, 1, None), (131, 2, 120), (134, 3, 120), (142, 5, 100), (150, 4, 60)]
+    for n, k, budget in configs:
+        S, D, Lx, Lz = code_with_destabilizers(rng, n, k)
+        m = len(S)
+        tagk = 'size-independent n={} rows={}'.format(n, m)
+        one(S, Lx, Lz, nontrivial=False, kind=tagk + ' valid')
+        for i, j in pair_classes(rng, m, budget):
+            if rng.random() < 0.5:
+                i, j = j, i
+            S2 = list(S); S2[i] = xor(S[i], D[j])
+            one(S2, Lx, Lz, kind=tagk + ' one-pair', extra={'construction': 'stabilizer row {} multiplied by the '
+                                                            'destabilizer of row {}: the only anticommuting pair of '
+                                                            'stabilizers is rows {} and {}'.format(i, j, i, j)})
+            ctx.count('size-pair-blocks64', '{}-{}'.format(min(i, j) // 64, max(i, j) // 64))
+        # one stabilizer row anticommuting with one logical, at every row class (commutes with every other row)
+        for i in index_classes(m):
+            a = rng.randrange(k)
+            S2 = list(S); S2[i] = xor(S[i], rng.choice((Lx, Lz))[a])
+            one(S2, Lx, Lz, kind=tagk + ' row-vs-logical')
+    # (b) over-complete stabilizer lists on few qubits: generator g at row j only, row i times the destabilizer of g
+    for n, k, m in ([(10, 1, 70), (10, 1, 133), (12, 2, 141)] if q else
+                    [(10, 1, 65), (10, 1, 70), (10, 1, 129), (10, 1, 133), (12, 2, 141), (12, 1, 200), (13, 3, 260)]):
+        G, D, Lx, Lz = code_with_destabilizers(rng, n, k, mixing=4)
+        tagk = 'size-overcomplete n={} rows={}'.format(n, m)
+        first = True
+        for i, j in pair_classes(rng, m):
+            if rng.random() < 0.5:
+                i, j = j, i
+            g = rng.randrange(len(G))
+            S = overcomplete(rng, G, m, g, j)
+            if first:
+                one(S, Lx, Lz, nontrivial=False, kind=tagk + ' valid'); first = False
+            S2 = list(S); S2[i] = xor(S[i], D[g])
+            one(S2, Lx, Lz, kind=tagk + ' one-pair', extra={'construction': 'over-complete stabilizer list; rows {} and {} '
+                                                            'are the only anticommuting pair'.format(i, j)})
+            ctx.count('size-pair-blocks64', '{}-{}'.format(min(i, j) // 64, max(i, j) // 64))
+        S = overcomplete(rng, G, m, 0, 0)
+        for i in index_classes(m):
+            a = rng.randrange(k)
+            S2 = list(S); S2[i] = xor(S[i], rng.choice((Lx, Lz))[a])
+            one(S2, Lx, Lz, kind=tagk + ' row-vs-logical')
+    # (c) many logical operators: logical row p times the partner of row q -> rows p and q alone break the pairing
+    for n, k, budget in ([(70, 66, 60)] if q else [(70, 66, 150), (135, 130, 60), (72, 33, None)]):
+        S, D, Lx, Lz = code_with_destabilizers(rng, n, k)
+        tagk = 'size-logicals n={} rows={}'.format(n, 2 * k)
+        one(S, Lx, Lz, nontrivial=False, kind=tagk + ' valid')
+        for p, qq in pair_classes(rng, 2 * k, budget):
+            if rng.random() < 0.5:
+                p, qq = qq, p
+            L = [list(r) for r in Lx + Lz]
+            L[p] = xor(L[p], L[(qq + k) % (2 * k)])
+            one(S, L[:k], L[k:], kind=tagk + (' one-pair' if (qq - p) % k else ' zero-row'))
+        for i in index_classes(len(S)):
+            for p in rng.sample(index_classes(2 * k), 3):
+                S2 = list(S); S2[i] = xor(S[i], (Lx + Lz)[p])
+                one(S2, Lx, Lz, kind=tagk + ' row-vs-logical')
+
+
+def shape_codes(rng, count):
+    """small valid codes (single stabilizer, k = 1, and general) and single-operator corruptions of them"""
+    out = []
+    for _ in range(count):
+        n, k = rng.choice([(2, 1), (2, 1), (3, 1), (4, 1), (5, 1), (3, 2), (4, 3), (4, 2), (5, 2), (6, 3)])
+        S, Lx, Lz = gens.random_valid_code(rng, n, k)
+        out.append((S, Lx, Lz, 'valid'))
+        for which in ('S', 'Lx', 'Lz'):
+            S2, X2, Z2 = [r[:] for r in S], [r[:] for r in Lx], [r[:] for r in Lz]
+            tgt = {'S': S2, 'Lx': X2, 'Lz': Z2}[which]
+            tgt[rng.randrange(len(tgt))] = gens.rand_bits(rng, 2 * n)
+            out.append((S2, X2, Z2, 'replaced-' + which))
+    return out
+
+
+def check_presented(S, Lx, Lz, forms):
+    """(verdict, logicals wire value, list of the user's arrays that were modified) for one presentation"""
+    code = build(S, Lx, Lz, forms)
+    held = [code.stabilizers, code.logical_xs, code.logical_zs]
+    snap = [a.copy() for a in held]
+    v = verdict_of(code)
+    lg = logicals_of(code, len(Lx) + len(Lz), len(Lx[0]) // 2)
+    v2 = verdict_of(code)
+    if v2 != v:
+        v = '{} then {}'.format(v, v2)
+    touched = [nm for nm, a, b in zip(('stabilizers', 'logical_xs', 'logical_zs'), held, snap)
+               if a.dtype != b.dtype or a.shape != b.shape or not np.array_equal(a, b)]
+    return v, lg, touched
+
+
+def part_shapes(ctx):
+    rng = ctx.rng
+    dts = INT_DTYPES + (('bool',) if BOOL_FORMS else ())
+    for S, Lx, Lz, kind in shape_codes(rng, ctx.scale(24, 240)):
+        spec = spec_validate(S, Lx, Lz)
+        sS, sX, sZ = mat(S), mat(Lx), mat(Lz)
+        fS, fX, fZ = forms_for(S, dts), forms_for(Lx, dts), forms_for(Lz, dts)
+        triples = []
+        for lay in LAYOUTS_2D + LAYOUTS_1D:          # the same layout for all three where possible
+            for d in dts:
+                t = tuple('{}:{}'.format(lay if (lay in LAYOUTS_2D or len(M) == 1) else '2d', d) for M in (S, Lx, Lz))
+                triples.append(t)
+        for f in fS:
+            triples.append((f, '2d:int64', '2d:int64'))
+        for f in fX:
+            triples.append(('2d:int64', f, '2d:int64'))
+        for f in fZ:
+            triples.append(('2d:int64', '2d:int64', f))
+        triples += [(rng.choice(fS), rng.choice(fX), rng.choice(fZ)) for _ in range(40)]
+        for forms in dict.fromkeys(triples):
+            v, lg, touched = check_presented(S, Lx, Lz, forms)
+            isbool = any(f.endswith(':bool') for f in forms)
+            ctx.count('shape-layouts', '/'.join(f.split(':')[0] for f in forms))
+            ctx.count('shape-dtypes', '/'.join(f.split(':')[1] for f in forms))
+            inp = {'S': sS, 'Lx': sX, 'Lz': sZ, 'forms': list(forms), 'validate': v, 'conditions': spec, 'kind': kind,
+                   'presentation': 'user-defined StabilizerCode subclass whose stabilizers / logical_xs / logical_zs '
+                                   'return numpy arrays in the layouts:dtypes ' + ', '.join(forms)}
+            if isbool:
+                # no correspondence case: a mismatch of this class is reported under its own key only
+                if not agrees(v, spec) or lg != mat(Lx + Lz) or touched:
+                    ctx.monitor_fail('validate / logicals differ from the code conditions when a matrix is a bool array',
+                                     dict(inp, logicals=lg, arrays_modified=touched), key='validate:bool-dtype')
+                ctx.evaluations += 1
+                continue
+            ctx.case('c20 validate {} {} {}'.format(sS, sX, sZ), v, nontrivial=True, meta={'forms': list(forms)})
+            ctx.case('c20 logicals {} {}'.format(sX, sZ), lg, nontrivial=True, meta={'forms': list(forms)})
+            if not agrees(v, spec):
+                ctx.monitor_fail('validate verdict differs from the code conditions (same operators as a 2-d int matrix: '
+                                 + impl_validate(S, Lx, Lz) + ')', inp)
+            if lg != mat(Lx + Lz):
+                ctx.monitor_fail('logicals is not the 2k x 2n stack of the logical Xs above the logical Zs',
+                                 dict(inp, logicals=lg))
+            if touched:
+                ctx.monitor_fail('validate / logicals modified the arrays returned by the user\'s properties',
+                                 dict(inp, arrays_modified=touched))
+
+
 def run(ctx):
     from qecsim.model import DecodeResult
     from qecsim.error import QecsimError
@@ -62,21 +426,28 @@ def run(ctx):
     from qecsim import paulitools as pt
     rng = ctx.rng
 
-    def one(S, Lx, Lz, nontrivial=True, kind=''):
+    def one(S, Lx, Lz, nontrivial=True, kind='', extra=None):
         if not len(S) or not len(Lx) or not len(Lz):
             return
-        impl = impl_validate(S, Lx, Lz)
-        ctx.case('c20 validate {} {} {}'.format(mat(S), mat(Lx), mat(Lz)), impl, nontrivial=nontrivial,
-                 meta={'S': mat(S), 'Lx': mat(Lx), 'Lz': mat(Lz)})
+        code = build(S, Lx, Lz)
+        impl = verdict_of(code)
+        sS, sX, sZ = mat(S), mat(Lx), mat(Lz)
+        ctx.case('c20 validate {} {} {}'.format(sS, sX, sZ), impl, nontrivial=nontrivial, meta={'kind': kind})
         ctx.count('kind', kind)
         ctx.count('verdict', impl)
         # the property itself, directly on the real code (monitor)
         spec = spec_validate(S, Lx, Lz)
-        if spec is not None and spec != impl and not (spec.startswith('QecsimError') and impl.startswith('QecsimError')):
-            ctx.monitor_fail('validate verdict differs from the code conditions',
-                             {'S': mat(S), 'Lx': mat(Lx), 'Lz': mat(Lz), 'validate': impl, 'conditions': spec})
-        code = gens.MatCode(S, Lx, Lz)
-        ctx.case('c20 logicals {} {}'.format(mat(Lx), mat(Lz)), mat(code.logicals), nontrivial=False)
+        if not agrees(impl, spec):
+            inp = {'S': sS, 'Lx': sX, 'Lz': sZ, 'validate': impl, 'conditions': spec, 'kind': kind,
+                   'n_qubits': len(S[0]) // 2, 'stabilizer_rows': len(S), 'logical_rows': len(Lx) + len(Lz)}
+            inp.update(violating_pairs(S, Lx, Lz))
+            inp.update(extra or {})
+            ctx.monitor_fail('validate verdict differs from the code conditions', inp)
+        lg = logicals_of(code, len(Lx) + len(Lz), len(Lx[0]) // 2)
+        ctx.case('c20 logicals {} {}'.format(sX, sZ), lg, nontrivial=False)
+        if lg != mat(list(Lx) + list(Lz)):
+            ctx.monitor_fail('logicals is not the logical Xs stacked above the logical Zs',
+                             {'Lx': sX, 'Lz': sZ, 'logicals': lg[:400], 'kind': kind})
 
     for _ in range(ctx.scale(150, 1500)):
         k = rng.choice([1, 1, 2, 2, 3])
@@ -114,6 +485,8 @@ def run(ctx):
         Lx = [gens.rand_bits(rng, 2 * n, d) for _ in range(k)]
         Lz = [gens.rand_bits(rng, 2 * n, d) for _ in range(k)]
         one(S, Lx, Lz, kind='arbitrary')
+    part_size(ctx, one)
+    part_shapes(ctx)
     # twisted identity vs the code's construction
     for m in range(0, 13, 2):
         i1, i2 = np.hsplit(np.identity(m, dtype=int), 2)
@@ -196,22 +569,35 @@ def run(ctx):
     return ctx.finish(RULE, search=search)
 
 
+def agrees(v, spec):
+    """verdict v of the real code vs the conditions: passes iff they hold, raises QecsimError iff they do not"""
+    return spec is None or (v == 'ok') == (spec == 'ok') and (v == 'ok' or v.startswith('QecsimError:'))
+
+
 def search(m):
     toks = m['op'].split()
+    forms = (m.get('meta') or {}).get('forms')
+    P = lambda s: [[int(c) for c in r] for r in s.split('/')]  # noqa: E731
     if toks[1] == 'validate':
-        P = lambda s: [[int(c) for c in r] for r in s.split('/')]  # noqa: E731
         S, Lx, Lz = P(toks[2]), P(toks[3]), P(toks[4])
-        impl = impl_validate(S, Lx, Lz)
+        impl = impl_validate(S, Lx, Lz, forms)
         spec = spec_validate(S, Lx, Lz)
-        if spec is not None and (spec == 'ok') != (impl == 'ok'):
-            return {'what': 'validate passes/raises contrary to the code conditions', 'S': toks[2], 'Lx': toks[3],
-                    'Lz': toks[4], 'validate': impl, 'conditions': spec}
+        if not agrees(impl, spec):
+            d = {'what': 'validate passes/raises contrary to the code conditions', 'S': toks[2], 'Lx': toks[3],
+                 'Lz': toks[4], 'validate': impl, 'conditions': spec, 'n_qubits': len(S[0]) // 2,
+                 'stabilizer_rows': len(S), 'logical_rows': len(Lx) + len(Lz)}
+            d.update(violating_pairs(S, Lx, Lz))
+            if forms:
+                d['forms'] = forms
+            return d
     if toks[1] == 'logicals':
-        P = lambda s: [[int(c) for c in r] for r in s.split('/')]  # noqa: E731
         Lx, Lz = P(toks[2]), P(toks[3])
-        got = gens.MatCode(Lx, Lx, Lz).logicals.tolist()
-        if got != Lx + Lz:
-            return {'what': 'logicals is not xs stacked above zs', 'Lx': toks[2], 'Lz': toks[3], 'logicals': mat(got)}
+        got = logicals_of(build(Lx, Lx, Lz, forms), len(Lx) + len(Lz), len(Lx[0]) // 2)
+        if got != mat(Lx + Lz):
+            d = {'what': 'logicals is not xs stacked above zs', 'Lx': toks[2], 'Lz': toks[3], 'logicals': got}
+            if forms:
+                d['forms'] = forms
+            return d
     if toks[1] == 'dr':
         return {'what': 'DecodeResult constructibility differs from "success or recovery given"', 'op': m['op'],
                 'impl': m['impl']}
@@ -220,14 +606,23 @@ def search(m):
 
 def replay(ctx, path):
     body = json.load(open(path)); bad = 0
+    P = lambda s: [[int(ch) for ch in r] for r in s.split('/')]  # noqa: E731
     for v in body.get('violations', []):
         mm = v.get('first_mismatch')
         if mm:
-            r = search(mm); print('replay', mm['op'][:120], '->', r); bad += bool(r)
+            r = search(mm); print('replay', mm['op'][:120], '->', str(r)[:600]); bad += bool(r)
         c = v.get('counterexample')
-        if c and 'input' in c and 'S' in c['input']:
-            P = lambda s: [[int(ch) for ch in r] for r in s.split('/')]  # noqa: E731
-            i = c['input']; impl = impl_validate(P(i['S']), P(i['Lx']), P(i['Lz']))
-            spec = spec_validate(P(i['S']), P(i['Lx']), P(i['Lz']))
-            print('replay counterexample: validate={} conditions={}'.format(impl, spec)); bad += (impl != spec)
+        i = (c or {}).get('input') or c or {}
+        if i.get('Lx') and i.get('Lz'):
+            forms = i.get('forms')
+            Lx, Lz = P(i['Lx']), P(i['Lz'])
+            if i.get('S'):
+                S = P(i['S'])
+                impl = impl_validate(S, Lx, Lz, forms); spec = spec_validate(S, Lx, Lz)
+                print('replay counterexample: validate={} conditions={}{}'.format(
+                    impl, spec, ' forms=' + ','.join(forms) if forms else ''))
+                bad += not agrees(impl, spec)
+            got = logicals_of(build(i.get('S') and P(i['S']) or Lx, Lx, Lz, forms), len(Lx) + len(Lz), len(Lx[0]) // 2)
+            if got != mat(Lx + Lz):
+                print('replay counterexample: logicals={}'.format(got[:200])); bad += 1
     return 1 if bad else 0
